@@ -9,31 +9,37 @@ MIRSYM = "symbolic execution of rustc MIR (mirsym) + SMT (Z3)"
 
 CHECKS = {
     "C01": dict(text="bounded symbolic execution of OptionParser::run_subparser (MIR regenerated from /repo) on symbolic item vectors of 11 conventional grammars, differential against a documentation-level reference semantics; every path is closed by Z3, one concrete member of every path is replayed natively",
-                note="bounds: <=3 items quick / <=4 thorough, listed grammar corpus (all typed values u32); std calls replaced by listed models; rendering cut at Message::render/render_help; tokenizer image assumed (wf_tokens)",
+                note="bounds: <=3 argv words quick / <=4 thorough (each word is 1-2 items), 12 grammars (all typed values u32); std calls replaced by listed models; rendering cut at Message::render/render_help; tokenizer image assumed (wf_tokens)",
                 tech=MIRSYM + ", differential oracle", ref="DESIGN.md 4/C01"),
     "C03": dict(text="relational: run_subparser executed from MIR on a symbolic argv and on its neighbour-transposed variant in one path; Z3 shows equal class and value for every allowed transposition",
-                note="bounds: 2..3 items quick / ..4 thorough, 9 grammars; vectors with a dangling argument name are skipped (no decomposition into whole occurrences)",
+                note="bounds: 2..3 argv words quick / ..4 thorough, 10 grammars; vectors with a dangling argument name are skipped (no decomposition into whole occurrences)",
                 tech=MIRSYM + ", relational (2-execution) query", ref="DESIGN.md 4/C03"),
     "C05": dict(text="ledger lemmas of State::{remove,set_scope,take_*} from an arbitrary symbolic state, wrapper contracts with a nondeterministic inner parser, and Ok => all-items-Parsed / value provenance / declared-names on the whole corpus (groups, alternatives, adjacent groups, subcommands)",
-                note="lemma counterexamples are internal states (reported with the solver model, not replayable through the public API); corpus bounds <=3 items quick / <=4 thorough",
+                note="lemma counterexamples are internal states (reported with the solver model, not replayable through the public API); corpus bounds <=3 argv words quick / <=4 thorough",
                 tech=MIRSYM + ", inductive-step lemmas + corpus obligations", ref="DESIGN.md 4/C05"),
     "C06": dict(text="differential against the reference semantics on grammars with guards / parse steps / groups under optional, many, some, last, fallback; plus the message clause: a sentence with an invalid value fails with ParseFailed/GuardFailed pointing at the offending item (observed at the render cut, confirmed on native text)",
                 note="bounds <=3 items quick / <=4 thorough; guards are `value >= 10` executed from the harness MIR; conversion is an uninterpreted validity predicate",
                 tech=MIRSYM + ", differential oracle", ref="DESIGN.md 4/C06"),
+    "C07": dict(text="differential against a documentation-level semantics of choices (bare / optional / repeated) over a flag, an argument and a two-argument group, plus a repeated choice of three flags: exactly-one alternative, conflicts fail, repeated values in command line order (leftmost item of each instance)",
+                note="bounds: <=3 argv words quick / <=4 thorough (up to twice as many items), grammars a1-a4",
+                tech=MIRSYM + ", differential oracle", ref="DESIGN.md 4/C07"),
     "C08": dict(text="differential against the reference semantics on subcommand trees (depth 2, aliases, optional command, per-level items and positionals)",
-                note="bounds <=4 items quick / <=5 thorough (4+: shapes with a plain word); enclosing-level options right of the command name are outside the quantifier",
+                note="bounds <=3 argv words quick / <=4 thorough; enclosing-level options right of the command name are outside the quantifier",
                 tech=MIRSYM + ", differential oracle", ref="DESIGN.md 4/C08"),
     "C09": dict(text="differential against the reference semantics on positional grammars of every strictness with `--` at every position and arbitrary ids on both sides",
                 note="bounds <=4 items quick / <=5 thorough; the construct-loop clause (pre-consumed separator, no re-tokenising) belongs to the text layer",
                 tech=MIRSYM + ", differential oracle", ref="DESIGN.md 4/C09"),
     "C10": dict(text="one Short/Long item is constrained to be the help (version) flag, everything else symbolic; Z3 shows the class is Stdout and the (cut) help renderer receives the path/Info of the innermost entered subcommand",
-                note="bounds 1..3 items quick / ..4 thorough, 11 grammars; the ambiguity exception of run_inner is outside the token layer; one known finding (see known_findings.json)",
+                note="bounds 1..3 argv words quick / ..4 thorough, 14 grammars; the ambiguity exception of run_inner is outside the token layer; one known finding (see known_findings.json)",
                 tech=MIRSYM + ", outcome-class obligations", ref="DESIGN.md 4/C10"),
     "C18": dict(text="std::env::var_os replaced by symbolic functions; differential against the reference semantics (line, then variable, then default/failure) for every argv shape and every environment state; reading an undeclared variable is a violation",
-                note="bounds <=2 items quick / <=3 thorough on the env-backed grammar; one known finding (see known_findings.json)",
+                note="bounds <=2 argv words quick / <=3 thorough on the env-backed grammar; one known finding (see known_findings.json)",
                 tech=MIRSYM + ", differential oracle with symbolic environment", ref="DESIGN.md 4/C18"),
+    "C19": dict(text="adjacent groups (multi-value option, option-struct before/after a switch, optional and repeated) and adjacent subcommand chains: Ok => every group value comes from one contiguous block starting at a group-start item, in command line order (value provenance); clean lines => Ok with exactly the block values; a group-start item without a complete block => stderr",
+                note="bounds: <=3 argv words quick / <=4 thorough; lines the documentation does not fix (positional before a block) only carry the soundness obligation",
+                tech=MIRSYM + ", provenance + block-decomposition oracle", ref="DESIGN.md 4/C19"),
     "C20": dict(text="relational across two MIR dumps ({} and {autocomplete,docgen,batteries}): the second build is explored under each path condition of the first; Z3 shows equal class, value, ledger and Message",
-                note="bounds <=3 items quick / <=4 thorough, 14 grammars; text rendering cut; colour features and derive not executed",
+                note="bounds <=2 argv words quick / <=3 thorough, 17 grammars; text rendering cut; colour features and derive not executed",
                 tech=MIRSYM + ", relational query across two builds", ref="DESIGN.md 4/C20"),
 }
 
